@@ -66,7 +66,9 @@ func (d *badgerNodeDB) StartMultipartInsert(version uint64) error {
 	}
 
 	d.meta.setMultipart(version, multiMeta)
+	verifCrashPoint("pathbadger.startmp.0-before-writes")
 	d.meta.commit(tx)
+	verifCrashPoint("pathbadger.startmp.1-after-meta-commit")
 
 	d.multipartVersion = version
 	d.multipartMeta = multiMeta
@@ -144,16 +146,19 @@ func (d *badgerNodeDB) cleanMultipartLocked(removeNodes bool) error {
 		}
 	}
 
+	verifCrashPoint("pathbadger.cleanmp.0-before-writes")
 	// Flush batch first. If anything fails, having corrupt multipart info in d.meta shouldn't hurt
 	// us next run.
 	if err := batch.Flush(); err != nil {
 		return err
 	}
+	verifCrashPoint("pathbadger.cleanmp.1-after-batch-flush")
 
 	metaTx := d.db.NewTransactionAt(tsMetadata, true)
 	defer metaTx.Discard()
 	d.meta.setMultipart(0, nil)
 	d.meta.commit(metaTx)
+	verifCrashPoint("pathbadger.cleanmp.2-after-meta-commit")
 
 	d.multipartVersion = multipartVersionNone
 	d.multipartMeta = nil
